@@ -24,8 +24,31 @@ def hint(k):
     return ""
 
 
+class GrammarUnsupported(Exception):
+    pass
+
+
 def load(ctx):
-    return GM.analyse(ctx.prog, ctx.grammar, ctx.tier)
+    try:
+        return GM.analyse(ctx.prog, ctx.grammar, ctx.tier)
+    except GM.Unsupported as ex:
+        raise GrammarUnsupported(str(ex))
+
+
+def model_limits(rep, rule, res, where, direction):
+    """Constructs the model could not represent exactly are reported fail-closed, in the direction where the
+    approximation is not conservative."""
+    # a dropped lookahead predicate makes the modelled impl language LARGER than the real one:
+    #   impl <= RFC (C07) stays sound; RFC <= impl (C06) and blank-exactness (C13) do not
+    if res.get("predicates_dropped") and direction in ("rfc<=impl", "both"):
+        rep.unrecognised(rule, "predicate:" + ",".join(res["predicates_dropped"]), where,
+                         "lookahead predicate in rule(s) %s cannot be modelled exactly: strings it excludes may be valid RFC 9535 queries" % res["predicates_dropped"])
+    for slot, info in sorted(res["slots"].items()):
+        for st in info["steps"]:
+            if st.startswith("unknown-check:") and direction in ("rfc<=impl", "both"):
+                rep.unrecognised(rule, "unknown-check:%s:%s" % (slot, st[14:]), where,
+                                 "the text of %s passes through `%s`, a check whose effect on the accepted language could not be determined: it may "
+                                 "reject valid queries" % (slot, st[14:]))
 
 
 def check_side_conditions(rep, rule, res, where):
